@@ -5,15 +5,6 @@ From Scalibr Require Import Formats.Lines Formats.LinesProofs Formats.Apk.
 Import ListNotations.
 Open Scope N_scope.
 
-Lemma map_fst_with_eols ls es : map fst (with_eols ls es) = ls.
-Proof.
-  revert es. induction ls as [|l r IH]; intros es; [reflexivity|].
-  destruct es; cbn [with_eols map fst]; now rewrite IH.
-Qed.
-
-Lemma map_fst_blank_lines es : map fst (blank_lines es) = map (fun _ => []) es.
-Proof. unfold blank_lines. rewrite map_map. reflexivity. Qed.
-
 (* blank lines while no record is open are skipped *)
 Lemma apk_lines_blanks es rest tl :
   apk_lines (map fst (blank_lines es) ++ rest) tl [] = apk_lines rest tl [].
@@ -145,12 +136,6 @@ Proof.
 Qed.
 
 (* ------------------------------------------------------------------ every rendered line is scannable *)
-Lemma blank_line_ok e : line_ok ([], e) = true.
-Proof. destruct e; reflexivity. Qed.
-
-Lemma blank_lines_ok es : forallb line_ok (blank_lines es) = true.
-Proof. induction es as [|e es IH]; [reflexivity|]. cbn [blank_lines map forallb]. now rewrite blank_line_ok. Qed.
-
 Lemma field_line_ok kv e : field_ok kv = true -> line_ok (field_line kv, e) = true.
 Proof.
   destruct kv as [k v]. unfold field_ok, field_short, wf_value, line_ok, field_line. cbn [fst snd].
@@ -161,14 +146,6 @@ Proof.
   { unfold no_trailing_cr. rewrite last_app_cons. destruct v as [|d v]; [reflexivity|].
     change (last (COLON :: d :: v) 0) with (last (d :: v) 0). exact H1. }
   cbn [andb]. apply N.ltb_lt. rewrite len_N_app. cbn [len_N]. destruct e; lia.
-Qed.
-
-Lemma with_eols_ok ls es :
-  (forall l e, In l ls -> line_ok (l, e) = true) -> forallb line_ok (with_eols ls es) = true.
-Proof.
-  revert es. induction ls as [|l r IH]; intros es H; [reflexivity|].
-  destruct es; cbn [with_eols forallb]; rewrite H by (now left); cbn [andb];
-    apply IH; intros; apply H; now right.
 Qed.
 
 Lemma rec_lines_ok r y : wf_apk_rec r = true -> forallb line_ok (apk_rec_lines r y) = true.
@@ -193,28 +170,6 @@ Proof.
 Qed.
 
 (* ------------------------------------------------------------------ the last line *)
-Lemma last_line_ok_true ls : last_line_ok ls true = true.
-Proof. induction ls as [|[c e] [|x r] IH]; try reflexivity. exact IH. Qed.
-
-Lemma last_line_ok_app a b fnl : b <> [] -> last_line_ok (a ++ b) fnl = last_line_ok b fnl.
-Proof.
-  intros Hb. induction a as [|[c e] a IH]; [reflexivity|].
-  cbn [app]. destruct (a ++ b) as [|x m] eqn:E.
-  - destruct a; [cbn in E; congruence | discriminate].
-  - exact IH.
-Qed.
-
-Lemma last_line_ok_nonempty ls fnl :
-  (forall c e, In (c, e) ls -> c <> []) -> last_line_ok ls fnl = true.
-Proof.
-  induction ls as [|[c e] r IH]; intros H; [reflexivity|].
-  destruct r as [|x r'].
-  - cbn [last_line_ok]. assert (c <> []) as Hc by (apply (H c e); now left).
-    destruct c; [congruence|]. cbn. now rewrite orb_true_r.
-  - change (last_line_ok ((c, e) :: x :: r') fnl) with (last_line_ok (x :: r') fnl).
-    apply IH. intros c' e' Hin. apply (H c' e'). now right.
-Qed.
-
 Lemma rec_lines_nonempty r y : apk_rec_lines r y <> [].
 Proof.
   unfold apk_rec_lines, apk_fields, insert_at. destruct (firstn (al_posP y) _); cbn [app map];
